@@ -206,13 +206,15 @@ class replace_op(base_op_state):
         revert_point = plan.current_state
         old = plan.state.get_conflicting_slot(self.pkg)
         # probably should just convert to an add...
-        force_old = bool(plan.state.check_limiters(old))
         assert old is not None
         plan.state.remove_slotting(old)
         old_choices = plan.pkg_choices[old]
         # assertion for my own sanity...
         assert revert_point == plan.current_state
         plan._remove_pkg_blockers(old_choices)
+        # revert() puts old back while its own blockers are still dropped (their
+        # decref ops sit earlier in the plan), so judge the limiters in that state.
+        force_old = bool(plan.state.check_limiters(old))
         l = plan.state.fill_slotting(self.pkg, force=self.force)
         if l:
             # revert... limiter.
